@@ -174,11 +174,13 @@ def unhandledReply (ka : Bool) : Seg → Option Bytes
     let expecter := r.expect == .cont && r.proto11
     if r.expect == .cont && !clNonZero r.body then
       let rq : BfeVerif.C27.Req := { isHead := r.method == 1, proto11 := r.proto11, conn := connStr r.conn,
-                                      clNonZero := false, bodyLeft := 0, expecter := expecter }
+                                      clNonZero := false, bodyLeft := 0, expecter := expecter,
+                                      graceful := r.graceful }
       some (render (respond rq ka [Act.set "Connection" "close", Act.writeHeader 400]))
     else if r.expect == .unknown then
       let rq : BfeVerif.C27.Req := { isHead := r.method == 1, proto11 := r.proto11, conn := connStr r.conn,
-                                      clNonZero := clNonZero r.body, bodyLeft := bodyDecoded r.body }
+                                      clNonZero := clNonZero r.body, bodyLeft := bodyDecoded r.body,
+                                      graceful := r.graceful }
       some (render (respond rq ka [Act.set "Connection" "close", Act.writeHeader 417]))
     else none
 
